@@ -126,3 +126,116 @@ func TestStartRace(t *testing.T) {
 		recRace.Case(hit.Load(), desc)
 	})
 }
+
+var recGhost = kit.NewRecorder("C17", "late-member",
+	"a permanent or transient application with 2-3 members; one member fails and is held at the yield point between 'removed from the group' and 'decided what that means' (app.member.gone) while the other members are killed; as soon as the application reports state loaded it is started again; then the held member is released; "+
+		"oracle: the run that was started last keeps running with all its members (nothing in it failed), the terminate callback has run exactly once (for the first run), and a stop request then ends it normally; "+
+		"non-trivial = the held member was released after the restart, or the restart had to wait for it; distinct by parameters")
+
+// TestLateMember: what a member's termination means is decided for the run it belonged to -
+// however late that member gets round to it.
+func TestLateMember(t *testing.T) {
+	rapid.Check(t, func(t *rapid.T) {
+		n := rapid.IntRange(2, 3).Draw(t, "members")
+		mode := rapid.SampledFrom([]gen.ApplicationMode{gen.ApplicationModeTransient, gen.ApplicationModePermanent}).Draw(t, "mode")
+		late := rapid.IntRange(0, n-1).Draw(t, "late-member")
+		node, err := kit.StartLocalNode()
+		if err != nil {
+			t.Fatalf("start node: %v", err)
+		}
+		defer node.StopForce()
+		probe := kit.NewProbe()
+		w := &world{t: t, node: node, probe: probe, gates: map[string]chan struct{}{}}
+		spec := gen.ApplicationSpec{Name: "app0", Mode: mode}
+		for j := 0; j < n; j++ {
+			spec.Group = append(spec.Group, gen.ApplicationMemberSpec{Factory: kit.Factory(&kit.ActorConfig{Label: label(0, j), Probe: probe, Quiet: true})})
+		}
+		beh := &kit.App{Label: "app0", Probe: probe, Spec: spec}
+		if _, err := node.ApplicationLoad(beh); err != nil {
+			t.Fatalf("load: %v", err)
+		}
+		if err := node.ApplicationStart("app0", gen.ApplicationOptions{}); err != nil {
+			t.Fatalf("start: %v", err)
+		}
+		latePID, _ := w.pidOf(label(0, late))
+		held := make(chan struct{})
+		release := make(chan struct{})
+		var once atomic.Bool
+		lib.SetVerifHook(func(name string, id uint64) {
+			if name == "app.member.gone" && id == latePID.ID && once.CompareAndSwap(false, true) {
+				close(held)
+				<-release
+			}
+		})
+		defer lib.SetVerifHook(nil)
+		node.Send(latePID, kit.Stop{Reason: errors.New("late member's failure")})
+		select {
+		case <-held:
+		case <-time.After(5 * time.Second):
+			close(release)
+			t.Fatalf("the failing member never reached the yield point app.member.gone")
+		}
+		// the others go while it is held
+		othersDone := make(chan struct{})
+		go func() {
+			for j := 0; j < n; j++ {
+				if j != late {
+					if pid, ok := w.pidOf(label(0, j)); ok {
+						node.Kill(pid)
+					}
+				}
+			}
+			close(othersDone)
+		}()
+		restarted := false
+		if kit.WaitUntil(100*time.Millisecond, func() bool {
+			i, _ := node.ApplicationInfo("app0")
+			return i.State == gen.ApplicationStateLoaded
+		}) {
+			// the stop has been finished without the held member: the application can be started again
+			if err := node.ApplicationStart("app0", gen.ApplicationOptions{}); err != nil {
+				close(release)
+				t.Fatalf("the application is in state loaded and cannot be started: %v", err)
+			}
+			restarted = true
+		}
+		close(release)
+		<-othersDone
+		if !restarted {
+			if !kit.WaitUntil(5*time.Second, func() bool {
+				i, _ := node.ApplicationInfo("app0")
+				return i.State == gen.ApplicationStateLoaded
+			}) {
+				i, _ := node.ApplicationInfo("app0")
+				t.Fatalf("every member of the first run is gone and the application is in state %s", i.State)
+			}
+			if err := node.ApplicationStart("app0", gen.ApplicationOptions{}); err != nil {
+				t.Fatalf("restart: %v", err)
+			}
+		}
+		// the second run: nothing in it fails
+		time.Sleep(time.Duration(20+rapid.IntRange(0, 60).Draw(t, "watch-ms")) * time.Millisecond)
+		info, _ := node.ApplicationInfo("app0")
+		var alive []int
+		for j := 0; j < n; j++ {
+			if pid, ok := w.pidOf(label(0, j)); ok && w.isAlive(pid) {
+				alive = append(alive, j)
+			}
+		}
+		_, terms := beh.Counts()
+		desc := fmt.Sprintf("members=%d mode=%s late=%d restarted-while-held=%v", n, mode, late, restarted)
+		if info.State != gen.ApplicationStateRunning || len(alive) != n {
+			t.Fatalf("%s: the application was started again and nothing in the new run failed, yet its state is %s and the members alive are %v (a member of the previous run acted on it)", desc, info.State, alive)
+		}
+		if terms != 1 {
+			t.Fatalf("%s: the terminate callback has run %d times, the application stopped once", desc, terms)
+		}
+		if err := node.ApplicationStopWithTimeout("app0", 3*time.Second); err != nil {
+			t.Fatalf("%s: stopping the second run: %v", desc, err)
+		}
+		if _, terms := beh.Counts(); terms != 2 {
+			t.Fatalf("%s: after stopping the second run the terminate callback has run %d times", desc, terms)
+		}
+		recGhost.Case(true, desc, fmt.Sprintf("restarted-while-held=%v", restarted))
+	})
+}
